@@ -10,6 +10,8 @@ CONSTANTS
   MaxTx = 2
   MaxLen = 4
   Modes = {"compact", "streamed"}
+  Late = FALSE
+  Stale = FALSE
 VIEW View
 INVARIANTS C14 TypeOK
 CHECK_DEADLOCK FALSE
